@@ -226,4 +226,29 @@ theorem KF2_witness : memAt (Gen.Step kf2St) 0x0110#16 = some 0x00#8 ∧ memAt (
     memAt (Spec.step Impl.koron kf2St) 0x0110#16 = some 0x10#8 := by
   refine ⟨?_, ?_, ?_⟩ <;> rfl
 
+/-- KF-1 for EVERY state (not only the witness): with RST 38h supplied in mode 0 and the stack away from PC, the
+    return address the handler will pop is PC+1 — the interrupted program resumes one byte too far -/
+theorem KF1_every_state (s : St) (i : Interrupt) (hi : s.Interrupt = some i) (hm : s.Memory = .user) (hn : i.Type_ ≠ 0)
+    (hf : s.IFF1 = true) (him : s.IM = 0) (hd : i.Data = [0xff#8])
+    (h1 : s.SP - 1#16 ≠ s.PC) (h2 : s.SP - 2#16 ≠ s.PC) :
+    ∃ t, Gen.Step s = .ok () t ∧ t.PC = 0x0038#16 ∧ t.SP = s.SP - 2#16 ∧
+      mk16 (t.mem (t.SP + 1#16)) (t.mem t.SP) = s.PC + 1#16 := by
+  rw [C06.C06_im0_rst s i hi hm hn hf him 0xff#8 (by simp) hd]
+  have e1 : s.SP - 2#16 + 1#16 = s.SP - 1#16 := by bv_omega
+  have hne : s.SP - 2#16 ≠ s.SP - 1#16 := by bv_omega
+  refine ⟨_, by simp [Spec.stepKF, hi, isNMI, hn, hf, him, hd, koronIM0, Spec.executeOne, Spec.fetchM1, Spec.fetch, rd8, overlayMem, inWindow, execMain, execOpt, decodeBase, exec, push16, wr16, wr8, Impl.koron]; rfl, ?_, ?_, ?_⟩
+  · simp
+  · simp
+  · simp only [e1]
+    simp [upd, hne, hne.symm, e1]
+    have c1 : ¬ (65536 - BitVec.toNat s.PC + (65535 + BitVec.toNat s.SP)) % 65536 = 0 := by
+      intro h; apply h1; apply BitVec.eq_of_toNat_eq
+      have := s.PC.isLt; have := s.SP.isLt
+      simp [BitVec.toNat_sub]; omega
+    have c2 : ¬ (65536 - BitVec.toNat s.PC + (65534 + BitVec.toNat s.SP)) % 65536 = 0 := by
+      intro h; apply h2; apply BitVec.eq_of_toNat_eq
+      have := s.PC.isLt; have := s.SP.isLt
+      simp [BitVec.toNat_sub]; omega
+    simp [c1, c2, mk16_hi_lo]
+
 end Z80.Props.C07
